@@ -376,7 +376,7 @@ class StmtMixin:
             from .interp import Frame
             fi = cm.vf.fi
             gfr = Frame(fi, parent=cm.vf.frame)
-            gfr.owner, gfr.self_cls = fi.cls, fi.cls
+            gfr.owner, gfr.self_cls = fi.cls, (fr.self_cls if fi.cls is not None and fr.self_cls is not None else fi.cls)
             self.bind_args(fi, cm.args, cm.kwargs, gfr)
             gfr.locals['__on_yield__'] = body
             ex.frames.append(gfr)
@@ -601,6 +601,9 @@ class StmtMixin:
             v1 = ex.spec_term(lc.variant, fr)
             ex.oblige('var-dec', v1 < v0, f'{lab} variant decreases: {spec_text(lc.variant)}', st, key=(lab, 'dec'))
             ex.oblige('var-bound', v0 >= 0, f'{lab} variant bounded below', st, key=(lab, 'bound'))
+        for i, sc in enumerate(getattr(lc, 'step', [])):
+            ex.ghost['__iter_start__'] = frame_snap
+            ex.oblige('step', ex.spec_bool(sc, fr), f'{lab} step[{i}]: {spec_text(sc)}', st, key=(lab, 'step', i))
         for i, pg in enumerate(lc.progress):
             ex.ghost['__iter_start__'] = frame_snap
             ex.oblige('var-dec', ex.spec_bool(pg, fr), f'{lab} progress[{i}]: {spec_text(pg)}', st, key=(lab, 'progress', i))
